@@ -117,9 +117,28 @@ def apply(obj, kind, rng, pos=None):
         s = open(p).read()
         i = rng.randrange(len(s.split()[0])) if pos is None else pos % len(s.split()[0])
         c = s[i]
-        new = rng.choice([x for x in "0123456789abcdef" if x != c.lower()])
-        open(p, "w").write(s[:i] + new + s[i + 1:])
-        return "%s hex digit %d of %s" % (kind, i, os.path.relpath(p, obj))
+        how = rng.choice(["hex", "hex", "nonhex", "bit5", "bit", "delete", "insert"])
+        if how == "hex":
+            t = s[:i] + rng.choice([x for x in "0123456789abcdef" if x != c.lower()]) + s[i + 1:]
+        elif how == "nonhex":
+            t = s[:i] + rng.choice("gGzZ-_ .") + s[i + 1:]
+        elif how == "bit5":
+            # the case bit: for a letter this is the same digest (not a corruption), for a digit it is a control character
+            if not c.isdigit():
+                how = "hex"; t = s[:i] + rng.choice([x for x in "0123456789abcdef" if x != c.lower()]) + s[i + 1:]
+            else:
+                t = s[:i] + chr(ord(c) ^ 0x20) + s[i + 1:]
+        elif how == "bit":
+            k = rng.choice([0, 1, 2, 3, 4, 6])
+            t = s[:i] + chr(ord(c) ^ (1 << k)) + s[i + 1:]
+            if t.split()[0].lower() == s.split()[0].lower():
+                t = s[:i] + rng.choice([x for x in "0123456789abcdef" if x != c.lower()]) + s[i + 1:]
+        elif how == "delete":
+            t = s[:i] + s[i + 1:]
+        else:
+            t = s[:i] + rng.choice("0123456789abcdef") + s[i:]
+        open(p, "w", newline="").write(t)
+        return "%s digit %d of %s (%s)" % (kind, i, os.path.relpath(p, obj), how)
     if kind in ("decl-delete", "decl-alter"):
         n = [f for f in os.listdir(obj) if f.startswith("0=")]
         if not n: return None
@@ -141,8 +160,12 @@ def apply(obj, kind, rng, pos=None):
     if kind == "stray-content":
         v = pick([v for v in versions if os.path.isdir(os.path.join(obj, v, cdir))])
         if not v: return None
-        os.makedirs(os.path.join(obj, v, cdir, "stray-dir"), exist_ok=True)
-        return kind + " (empty directory in the content directory)"
+        # first or last in the walk of the content directory, at the top or below an existing directory
+        sub = [d for d, ds, fs in os.walk(os.path.join(obj, v, cdir))]
+        where = rng.choice(sub)
+        name = rng.choice(["stray-dir", "zzzz-last", "~last", "0-first", "zz/nested/empty"])
+        os.makedirs(os.path.join(where, name), exist_ok=True)
+        return kind + " (empty directory %s)" % os.path.relpath(os.path.join(where, name), obj)
     if kind in ("meta-to-symlink", "meta-to-emptydir"):
         # an inventory, a sidecar or the version declaration, in the object root or in a version directory
         cands = [f for f in os.listdir(obj) if os.path.isfile(os.path.join(obj, f))]
